@@ -4,6 +4,7 @@ pub mod adv;
 pub mod clock;
 pub mod exec;
 pub mod fabric;
+pub mod imdev;
 pub mod kv;
 pub mod mutate;
 pub mod net;
